@@ -207,6 +207,13 @@ def negated_count(f, neg=False):
     return False
 
 
+def _ambiguous(cg, root, s):
+    try:
+        return rt.count_trees(cg, root, s, cap=2) > 1
+    except Exception:
+        return False
+
+
 def universal_numq_count(f, neg=False):
     """a numeric quantifier that is universal in negation normal form (forall int at positive polarity, exists int at
     negative polarity, either below iff/xor) binds the number argument of a count atom -- the solver instantiates such
@@ -312,9 +319,11 @@ def judge(case):
                 root_cause = ":universal_numq_count"
             elif universal_numq(f):
                 root_cause = ":universal_numq"
-            elif start and start in rt.reach(cg).get(start, set()) and any(x[0] in ("forall", "exists") and x[1] == start for x in fml.walk(f)):
-                # open finding: a quantifier over the requested, recursive start symbol itself
-                root_cause = ":quantifier_over_recursive_requested_start_symbol"
+            elif _ambiguous(cg, root, s) and any(x[0] in ("forall", "exists") for x in fml.walk(f)):
+                # open finding: the solver parses the Z3 value found for a partially expanded node from scratch; for a
+                # string with several derivations the new subtree can have another structure than the one the
+                # quantifiers had been matched (and eliminated) on
+                root_cause = ":ambiguous_string_reparsed"
             viol.append({"sig": "solution:violates_constraint%s" % root_cause, "index": i, "constraint": obs["text"], "string": s,
                          "template": case["template"], "settings": case["settings"]})
             break
